@@ -81,7 +81,7 @@ func FTP(options ...services.ServicerFunc) services.Servicer {
 
 	log.Debugf("FileSystem rooted at %s", fs.RealPath("/"))
 
-	s.driver = NewFileDriver(fs)
+	s.fs = fs
 
 	return s
 }
@@ -99,7 +99,7 @@ type ftpService struct {
 
 	server *Server
 
-	driver Driver
+	fs *filesystem.Htfs
 
 	FsRoot string `toml:"fs_base"`
 
@@ -116,7 +116,10 @@ func (s *ftpService) Handle(ctx context.Context, conn net.Conn) error {
 	recv := make(chan string)
 	defer close(recv)
 
-	ftpConn := s.server.newConn(conn, s.driver, recv)
+	// every session has its own working directory
+	driver := NewFileDriver(s.fs.Clone())
+
+	ftpConn := s.server.newConn(conn, driver, recv)
 
 	go func() {
 		for msg := range recv {
